@@ -91,7 +91,9 @@ func (r *rng) disciplineProgram() (*SX, bool) {
 	n := 1 + r.intn(3)
 	for i := 0; i < n; i++ {
 		body := fmt.Sprintf("(act (emit %d)", 100+i)
-		switch r.intn(7) {
+		switch r.intn(8) {
+		case 7: // a non-fatal failure, then a skip, before anything was drawn: still the end of the test case
+			body += " (error 3) (skip)"
 		case 0:
 			body += " (skip)"
 		case 1:
@@ -284,6 +286,11 @@ func init() {
 				fin := c10Scope(l, t, "prop", nReg, panicAt, nReg > 0 && panicAt != 0, skipLast)
 				if skipLast {
 					l.endings["cleanup-skips"]++
+				}
+				if nReg%2 == 1 {
+					// a Custom generator drawn by a cleanup function: its function gets a live context as well
+					l.endings["custom-in-cleanup"]++
+					t.Cleanup(func() { _ = custom.Draw(t, "in cleanup") })
 				}
 				_ = custom.Draw(t, "cv")
 				end := rapid.IntRange(0, 100).Draw(t, "end")
@@ -665,6 +672,26 @@ func fuzzOutcome(prog *SX, bs []byte) (string, *interp) {
 
 func init() {
 	monitors["C13"] = func(r *rng, scale int, m *monOut, tmp string) {
+		// a failure recorded on T (Fatal*, FailNow, Error*) falsifies the fuzz input even when a deferred function of the
+		// property then skips or draws past the end of the input
+		for _, src := range []string{
+			"((draw a (bool)) (defer (skip)) (fatal 1))", "((draw a (bool)) (defer (draw z (bool))) (fatal 1))",
+			"((draw a (bool)) (defer (skip)) (failnow 1))", "((draw a (bool)) (defer (draw z (bool))) (error 1))",
+			"((draw a (bool)) (cleanup (skip)) (fatal 1))", "((draw a (bool)) (draw cv (custom (draw c (bool)) (defer (skip)) (fatal 2) (ret c))))",
+		} {
+			for _, bs := range [][]byte{{1, 0, 0, 0, 0, 0, 0, 0}, {0, 0, 0, 0, 0, 0, 0, 0, 1}, {1, 0, 0, 0, 0, 0, 0, 0, 0, 0, 0, 0, 0, 0, 0, 0}} {
+				out, fin := fuzzOutcome(mustSX(src), bs)
+				signalled := false
+				for _, inv := range fin.invs {
+					signalled = signalled || inv.signalled
+				}
+				m.tag("recorded-failure-then-deferred-invalid")
+				m.eval(src+fmt.Sprint(bs), signalled)
+				if signalled && !strings.HasPrefix(out, "fail") {
+					m.violate(violation{"C13", "fuzz", fmt.Sprintf("a recorded failure followed by a deferred skip/overrun gave %q, want fail", out), map[string]string{"prog": src, "bytes": fmt.Sprint(bs)}})
+				}
+			}
+		}
 		for i := 0; i < 300*scale; i++ {
 			prog := r.engineProgram()
 			l := r.intn(100)
@@ -790,10 +817,52 @@ func init() {
 					}
 				}
 			}
+			// the same with system calls that *fail* (disk full, I/O error) instead of a crash: whatever saveFailFile
+			// reports, no file matching the pattern may hold partial content
+			for _, call := range []string{"write", "close", "renameat", "renameat2", "fsync"} {
+				for _, errno := range []string{"ENOSPC", "EIO"} {
+					for k := 1; k < 400; k++ {
+						dir, _ := os.MkdirTemp(tmp, "c16e-")
+						cmd := exec.Command("strace", "-f", "-o", "/dev/null", "-e", "trace="+call,
+							"-e", fmt.Sprintf("inject=%s:error=%s:when=%d", call, errno, k), self, "savechild", dir, name, strconv.Itoa(lines))
+						out, _ := cmd.CombinedOutput()
+						files := listFailFiles(dir, name)
+						for _, f := range files {
+							got, _ := os.ReadFile(f)
+							if string(got) != string(want) {
+								m.violate(violation{"C16", "partial", fmt.Sprintf("%s #%d of a %d-line save failed with %s: a file matching the fail-file pattern holds %d of %d bytes (saveFailFile said: %q)",
+									call, k, lines, errno, len(got), len(want), strings.TrimSpace(string(out))),
+									map[string]string{"lines": fmt.Sprint(lines), "call": call, "k": fmt.Sprint(k), "errno": errno, "file": filepath.Base(f)}})
+							}
+						}
+						os.RemoveAll(dir)
+						m.eval(fmt.Sprintf("lines=%d fail-at=%s#%d %s", lines, call, k, errno), true)
+						m.tag("failed-at-" + call)
+						// stop when the call count is exhausted: the run was not disturbed and left the complete file
+						if len(files) == 1 && !strings.Contains(string(out), "rror") && k > 1 {
+							break
+						}
+						if len(files) == 1 && k > 40 {
+							break
+						}
+					}
+				}
+			}
 			m.tag(fmt.Sprintf("crash-points-lines%d=%d", lines, total))
 			os.RemoveAll(ref)
 		}
 	}
+}
+
+// one value of a string generator from a seed; false: the draw ended with invalid data or panicked
+func c18Example(g *rapid.Generator[string], seed int) (v string, ok bool) {
+	defer func() {
+		if recover() != nil {
+			ok = false
+		}
+	}()
+	t := rapid.VerifNewT(newRecTB("c18s"), rapid.VerifRandStream(uint64(seed)*2654435761+1, false), false)
+	return rapid.VerifValue(g, t), true
 }
 
 // child process of the C16 monitor: one saveFailFile
@@ -835,6 +904,29 @@ func init() {
 				if what != "" {
 					m.violate(violation{"C18", "floatbits", what, map[string]string{"w": fmt.Sprint(w), "e": fmt.Sprint(e)}})
 				}
+			}
+		}
+		// strings: the upper edge of the byte-length range is produced, and a generator whose only values sit on
+		// the edge produces them
+		for maxLen := 1; maxLen <= 6; maxLen++ {
+			gEdge := rapid.StringOfN(rapid.RuneFrom([]rune{'a', 'b'}), 0, -1, maxLen)
+			gExact := rapid.StringOfN(rapid.RuneFrom([]rune{'a', 'b'}), maxLen, maxLen, maxLen)
+			sawEdge, exactOK := false, 0
+			for seed := 0; seed < 300; seed++ {
+				if v, ok := c18Example(gEdge, seed); ok && len(v) == maxLen {
+					sawEdge = true
+				}
+				if v, ok := c18Example(gExact, seed); ok && len(v) == maxLen {
+					exactOK++
+				}
+			}
+			m.tag("string-maxlen-edge")
+			m.eval(fmt.Sprintf("string-maxlen %d", maxLen), true)
+			if !sawEdge {
+				m.violate(violation{"C18", "strlen", fmt.Sprintf("StringOfN(ab, 0, -1, %d): no string of %d bytes in 300 examples", maxLen, maxLen), map[string]string{"maxLen": fmt.Sprint(maxLen)}})
+			}
+			if exactOK == 0 {
+				m.violate(violation{"C18", "strlen", fmt.Sprintf("StringOfN(ab, %d, %d, %d) produced no value in 300 examples", maxLen, maxLen, maxLen), map[string]string{"maxLen": fmt.Sprint(maxLen)}})
 			}
 		}
 		// every value of 8-bit ranges is produced (PRNG sampling)
